@@ -78,7 +78,7 @@ Section Cnt.
     cbn in Hj. inversion Hj; subst. specialize (H1 l1 h1 eq_refl). specialize (H2 l2 h2 eq_refl). lia.
   Qed.
 
-  Lemma journal_with_self r st : journal (with_self r st) = journal st.
+  Lemma journal_with_self r k st : journal (with_self r k st) = journal st.
   Proof. reflexivity. Qed.
   Lemma journal_with_cur e st : journal (with_cur e st) = journal st.
   Proof. reflexivity. Qed.
@@ -214,7 +214,7 @@ Section Cnt.
         intros lo hi Hx. inversion Hx; subst. specialize (W1 _ _ eq_refl). specialize (W2 _ _ eq_refl). lia. }
       apply (Hl (S f) (le_n _) st o st'); [exact H | exact Hne].
     - (* Call *)
-      destruct (EX f (pparam g) (prog g) (with_self (receiver g st) st)) as [o1 st1] eqn:H1.
+      destruct (EX f (pparam g) (prog g) (with_self (receiver g st) (recv_known g (rsk (sid st))) st)) as [o1 st1] eqn:H1.
       inversion H; subst o st'; clear H.
       assert (Ho1 : o1 <> OutOfFuel) by (intros ->; congruence).
       eapply within_ext; [apply journal_with_self | symmetry; apply journal_with_self |].
